@@ -95,3 +95,50 @@ def c16_plan(tier, seed, known):
 
 
 PLANS["C16"] = c16_plan
+
+
+REAL_PROTO = [
+    "rln::public::RLN (depth 20, default build: persistent tree on a temporary sled store) — proving, verification, recovery, tree updates, all through Read/Write arguments",
+    "arkworks Groth16 prover/verifier with the bundled zkey and witness graph (real proofs)",
+    "rln::protocol / rln::circuit functions used by the external-witness entry point",
+]
+STUB_PROTO = [
+    "the transport between nodes (delay relative to membership updates, duplication, in-transit alteration) and the membership log ('contract')",
+    "relay logic around the library (root window, pairing of messages for recovery), re-implemented in the harness after rln-cli/src/examples/relay.rs",
+    "request/response streams (SimReader/SimWriter)",
+]
+ASSUME_PROTO = [
+    "reference formulas (a1 = H(s,e,m), y = s + x*a1, nullifier = H(a1), rate = H(H(s),limit), x = Keccak-256(signal) LE mod p) are computed by the harness with zerokit's poseidon_hash (trusted) and tiny-keccak",
+    "Groth16 soundness: an altered public value or proof is expected to be rejected",
+    "inputs are sampled with boundary bias (positions 0, 1, 2^19-1, 2^19, 2^20-1; limits 1, 2, 2^16-1, 2^16; ids 0, limit-1; field values 0, 1, p-1; signals of length 0, 1, 135..137, long); bundled circuit fixes depth 20",
+    "proof bytes, blinding factors and temporary paths are never logged (not controlled: thread_rng); verdicts, roots and public values are",
+]
+
+
+def proto_plan(prop, level, rule, n_quick, n_thorough, procs=16):
+    def plan(tier, seed, known):
+        n = n_thorough if tier == "thorough" else n_quick
+        jobs = split_jobs("e2", prop, seed, n, procs, 1, "default", known, tier, rayons=(1, 1, 1, 2))
+        return {
+            "jobs": jobs,
+            "level": level,
+            "rule": rule,
+            "real": REAL_PROTO,
+            "stub": STUB_PROTO,
+            "assumptions": ASSUME_PROTO,
+            "simulated_time": "logical event order only (membership-log position vs delivery order); nothing in zerokit's protocol code reads a clock",
+            "timeout_s": 3400 if tier == "thorough" else 1200,
+        }
+    return plan
+
+
+RULE_PROTO = ("one evaluation = one seeded scenario on 1-3 RLN nodes: membership log applied with per-node lag through seeded API shapes, "
+              "publishes through the four proving entry points, deliveries (duplicates, alterations) through the three verification entry "
+              "points, recoveries; every step is an explicit event of the trace; non-trivial = at least one proof was generated or one "
+              "proving request rejected or one recovery evaluated; distinct = distinct trace digest")
+
+PLANS["C01"] = proto_plan("C01", "exploration", RULE_PROTO + "; C01: honest traffic, verifier at the same log position / behind / ahead with the root in its window, final heal + fresh message accepted everywhere", 160, 3000)
+PLANS["C02"] = proto_plan("C02", "fault_enumeration", RULE_PROTO + "; C02: per accepted message the alteration menu (5 public values x {0,1,+1,p-1,random,other message's}, sampled proof bits, signal edits, declared length) is enumerated x 3 entry points, plus verifier states {current, moved on in window, out of window, never had it, empty set, set without the root}", 100, 1500)
+PLANS["C03"] = proto_plan("C03", "exploration", RULE_PROTO + "; C03: double-signalling publishers (3 real messages per run: same slot twice, other epoch or id), duplicated deliveries, 40 synthetic share pairs per run with secret/x/ext in {0,1,p-1,random}, x1 = x2 with equal and different y", 120, 2000)
+PLANS["C12"] = proto_plan("C12", "exploration", RULE_PROTO + "; C12: valid and malformed proving requests (id = limit, id > limit, id or limit beyond 16 bits, position outside the tree, wrong path length, non-binary direction values, torn request, reader/writer errors) through all four entry points; Ok => verifies is evaluated on every proving step", 200, 3000)
+PLANS["C13"] = proto_plan("C13", "fault_enumeration", RULE_PROTO + "; C13: one accepted message, then truncation lengths (all in thorough, boundaries + sample in quick), declared signal lengths in a boundary set, random bytes, malformed root sets, v + k*p aliases of each public value (k = 1..5) at verify / verify_rln_proof / verify_with_roots / recover_id_secret (both arguments)", 100, 1500)
